@@ -51,6 +51,10 @@ func packScenario(logN, minLogN int, ch rk.Chain, bound int) engine.Scenario {
 		c.Cover("op", "RingPacking."+op)
 		uni.Seed(c, name, cfg)
 		known := knownKS(p, kp, level)
+		if known != "" {
+			c.Skip(skipKnown)
+			return
+		}
 		sig := func(clause string) string {
 			if known != "" {
 				return known
